@@ -1031,6 +1031,10 @@ class Config:  # pylint: disable=too-many-instance-attributes
         :param key: field key
         :param value: field default value
         """
+        if isinstance(value, Config):
+            # a ConfigType instance is created from a free-standing schema and does not know
+            # the key it is stored under, which the reference path of its fields needs
+            value._key = key
         self._data[key] = value
         self._default_value_keys.add(key)
 
